@@ -145,7 +145,8 @@ struct Explorer {
     if (on(EV_DESTROY)) v.push_back(mk(EV_DESTROY));
     if (on(EV_SETSERVERS) && b.n[EV_SETSERVERS] < f.max_setsrv)
       for (int s : f.setservers) v.push_back(mk(EV_SETSERVERS, s));
-    if (on(EV_REINIT) && b.n[EV_REINIT] < f.max_reinit) v.push_back(mk(EV_REINIT));
+    if (on(EV_REINIT) && b.n[EV_REINIT] < f.max_reinit)
+      for (int rv : f.reinit_variants) v.push_back(mk(EV_REINIT, rv));
     if (on(EV_TCP))
       for (auto &s : w.socks) {
         if (!s->open || !s->tcp) continue;
